@@ -27,5 +27,25 @@ for p in selftest/mutants/*.patch seeded/*/patch.diff; do
     echo "MISS $p (no violation reported for $prop)"; fail=$((fail+1))
   fi
 done
-echo "selftest: $n mutants, $fail missed"
-[ $fail -eq 0 ]
+# Must-pass corpus: property-preserving edits under selftest/harmless/ must not
+# raise an alarm.
+fa=0; h=0
+for p in selftest/harmless/*.patch; do
+  [ -f "$p" ] || continue
+  case "$p" in *"$pat"*) ;; *) continue;; esac
+  prop=$(basename "$p" | cut -d- -f1)
+  git -C /repo worktree remove --force "$tmp/wt" >/dev/null 2>&1
+  git -C /repo worktree add --detach "$tmp/wt" HEAD >/dev/null 2>&1 || { echo "cannot create worktree"; exit 2; }
+  (cd /repo && git diff) | (cd "$tmp/wt" && git apply 2>/dev/null)
+  (cd /repo && git ls-files --others --exclude-standard | grep '_verif.go$' | while read f; do mkdir -p "$tmp/wt/$(dirname $f)"; cp "$f" "$tmp/wt/$f"; done)
+  if ! git -C "$tmp/wt" apply "$(pwd)/$p"; then echo "SKIP $p (does not apply)"; continue; fi
+  h=$((h+1))
+  out=$(bin/govc check -prop "$prop" -repo "$tmp/wt" -out "$tmp/out" 2>&1); rc=$?
+  if [ $rc -ne 0 ] || echo "$out" | grep -q "^VIOLATION"; then
+    echo "FALSE-ALARM $p: $(echo "$out" | grep '^VIOLATION' | head -1 | cut -c1-160)"; fa=$((fa+1))
+  else
+    echo "quiet $p"
+  fi
+done
+echo "selftest: $n mutants, $fail missed; $h harmless edits, $fa false alarms"
+[ $fail -eq 0 ] && [ $fa -eq 0 ]
